@@ -737,13 +737,13 @@ fn parse_common_time_format(s: &str) -> Option<u32> {
     loop {
         match it.next() {
             Some(s) if s.ends_with(H_SEP) && !hours_found => {
-                let hours = &s[..s.len() - H_SEP.len_utf8()].parse::<u32>().ok()?;
-                total_minutes += hours * 60;
+                let hours = s[..s.len() - H_SEP.len_utf8()].parse::<u32>().ok()?;
+                total_minutes = total_minutes.checked_add(hours.checked_mul(60)?)?;
                 hours_found = true;
             }
             Some(s) if s.ends_with(M_SEP) => {
-                let minutes = &s[..s.len() - M_SEP.len_utf8()].parse::<u32>().ok()?;
-                total_minutes += minutes;
+                let minutes = s[..s.len() - M_SEP.len_utf8()].parse::<u32>().ok()?;
+                total_minutes = total_minutes.checked_add(minutes)?;
                 break;
             }
             None => break,
@@ -829,7 +829,10 @@ impl RecipeTime {
             RecipeTime::Composed {
                 prep_time,
                 cook_time,
-            } => prep_time.iter().chain(cook_time.iter()).sum(),
+            } => prep_time
+                .iter()
+                .chain(cook_time.iter())
+                .fold(0, |acc, t| acc.saturating_add(*t)),
         }
     }
 }
